@@ -177,6 +177,10 @@ class OptimizeResult(dict):
     def __setitem__(self, key: str, val: object):
         if key not in OptimizeResult._keys:
             raise ValueError("""The key is not part of OptimizeResult._keys""")
+        elif callable(val):
+            # (the target and the constraint function are kept by reference:
+            # callables owning locks, sessions or open files cannot be copied)
+            dict.__setitem__(self, key, val)
         else:
             dict.__setitem__(self, key, copy.deepcopy(val))
 
